@@ -15,6 +15,15 @@ package python
 // C08 "for every documented option combination the generated Python modules import": a package's __init__.py imports
 // its ndjson module exactly when that module is generated (python.generateNDJson), in the form that goes with the kind
 // of package (a top-level package with protocols re-exports the protocol classes, any other imports the module).
+// The modules of a Python package: the NDJSON module exists exactly when its option is set (__init__.py imports it under
+// the same condition, see writePackageInitFile); every writer's error is returned.
+//@ func writeNamespace
+//@   property C08,C11
+//@   ensures the_ndjson_module_follows_its_option: called("python/ndjson.WriteNDJson") ==> generateNDJson
+//@   ensures the_ndjson_module_is_written_when_asked_for: result == nil && generateNDJson ==> called("python/ndjson.WriteNDJson")
+//@   ensures the_init_file_gets_the_same_option: called(writePackageInitFile) ==> lastArg(writePackageInitFile, 2) == generateNDJson
+//@   ensures every_writer_error_is_returned: errSeen(writePackageInitFile) || errSeen("python/types.WriteTypes") || errSeen("python/protocols.WriteProtocols") || errSeen("python/binary.WriteBinary") || errSeen("python/ndjson.WriteNDJson") ==> result != nil
+//@ observe-args python.writePackageInitFile
 //@ func writePackageInitFile
 //@   property C08
 //@   requires ns != nil
